@@ -59,9 +59,12 @@ Expect(s, ev) ==
              okInv == ev.fn = "invert" =>      \* the defining property, checked independently of ModInv
                         (IF BN!IsZero(ev.a) THEN BN!IsZero(ev.out)
                          ELSE BN!ModMul(ev.a, ev.out, Md(ev)) = <<1>>)
+             \* the internal representation is the canonical Montgomery form x * 2^256 mod m
+             okRaw == ev.raw = B32(BN!ModMul(exp, <<1>> \o [i \in 1..32 |-> 0], Md(ev)))
          IN [st |-> s,
-             ok |-> ev.panic = "" /\ ev.out = B32(exp) /\ ev.big = exp /\ BN!Lt(ev.out, Md(ev)) /\ okInv,
-             why |-> "field " \o ev.field \o " " \o ev.fn \o ": value"]
+             ok |-> ev.panic = "" /\ ev.out = B32(exp) /\ ev.big = exp /\ BN!Lt(ev.out, Md(ev)) /\ okInv /\ okRaw,
+             why |-> IF ev.out = B32(exp) /\ ~okRaw THEN "field " \o ev.field \o " " \o ev.fn \o ": non-canonical internal value"
+                     ELSE "field " \o ev.field \o " " \o ev.fn \o ": value"]
     [] ev.op = "fiat.pred" ->
          [st |-> s,
           ok |-> /\ ev.panic = ""
